@@ -279,8 +279,17 @@ def libcds(hook=True, opt="-O1", extra=(), tag=""):
     lib = os.path.join(d, "libcds.a")
     if os.path.exists(lib):
         return lib
-    # drop older builds (disk is limited)
-    shutil.rmtree(os.path.join(WORK, "libcds"), ignore_errors=True) if len(glob.glob(os.path.join(WORK, "libcds", "*"))) > 6 else None
+    # drop builds that have not been used for two hours (disk is limited); never a recent one: other checks
+    # may be linking against it right now
+    try:
+        for old in glob.glob(os.path.join(WORK, "libcds", "*")):
+            if old != d and time.time() - os.path.getmtime(old) > 7200:
+                shutil.rmtree(old, ignore_errors=True)
+    except OSError:
+        pass
+    final_d, final_lib = d, lib
+    d = d + ".tmp%d" % os.getpid()
+    lib = os.path.join(d, "libcds.a")
     os.makedirs(d, exist_ok=True)
     procs = []
     objs = []
@@ -299,7 +308,11 @@ def libcds(hook=True, opt="-O1", extra=(), tag=""):
     rc, out = sh(["ar", "rcs", lib] + objs)
     if rc != 0:
         raise BuildError("ar failed: " + out)
-    return lib
+    try:
+        os.rename(d, final_d)
+    except OSError:
+        shutil.rmtree(d, ignore_errors=True)     # somebody else finished the same build first
+    return final_lib
 
 
 class BuildError(Exception):
